@@ -24,10 +24,14 @@ use tokio::sync::Notify;
 use vh::{rec, util};
 
 const PORT: u16 = 9000;
+const PORT_TCP: u16 = 9100;
+/// `Sim::links` entries that carry no payload (TCP RST) are named by the stream they reset:
+/// RST_BASE + (host of the destination << 16) + destination port.
+const RST_BASE: u64 = 1 << 32;
 
 #[derive(Clone, Debug)]
 enum Cmd {
-    Send { dst: usize, off: u64, id: u64 },
+    Send { dst: usize, off: u64, #[allow(dead_code)] id: u64, probe: bool },
     Ctl { op: String, a: usize, b: usize },
 }
 
@@ -37,6 +41,11 @@ struct Shared {
     warm: u64,                // warm-up offset in ms (one tick)
     next_id: u64,             // message ids are issued in send order
     ipv6: bool,
+    n: usize,
+    tcp_k: usize,             // half-open TCP streams prepared per ordered host pair (0 = none)
+    ready: usize,             // puppets that finished preparing their streams
+    // (sender host, local port of the stream) of every probe written so far, not yet seen reset
+    probes: BTreeMap<(usize, u16), u64>,
 }
 
 fn hname(h: usize) -> String {
@@ -108,35 +117,67 @@ async fn puppet(h: usize, shared: Rc<RefCell<Shared>>, notify: Rc<Notify>) -> tu
         IpAddr::V4(Ipv4Addr::UNSPECIFIED)
     };
     let sock = turmoil::net::UdpSocket::bind((any, PORT)).await?;
-    let warm = shared.borrow().warm;
+    // TCP "probe" traffic: streams whose remote end is already gone.  Every host accepts and
+    // immediately drops; every host opens tcp_k streams to every other host and never reads them.
+    // A byte written on such a stream is refused by the receiving host, which answers with an RST
+    // from inside Link::deliver_messages.
+    let (tcp_k, n) = (shared.borrow().tcp_k, shared.borrow().n);
+    let mut streams: BTreeMap<usize, VecDeque<turmoil::net::TcpStream>> = BTreeMap::new();
+    if tcp_k > 0 {
+        let listener = turmoil::net::TcpListener::bind((any, PORT_TCP)).await?;
+        tokio::task::spawn_local(async move {
+            while let Ok((s, _)) = listener.accept().await {
+                drop(s);
+            }
+        });
+        notify.notified().await;
+        for dst in (1..=n).filter(|d| *d != h) {
+            for _ in 0..tcp_k {
+                let s = turmoil::net::TcpStream::connect((hname(dst), PORT_TCP)).await?;
+                streams.entry(dst).or_default().push_back(s);
+            }
+        }
+        shared.borrow_mut().ready += 1;
+    }
+    let mut used: Vec<turmoil::net::TcpStream> = Vec::new();
     loop {
         notify.notified().await;
         rec::emit(json!({"ev":"wake","h":h}));
         let mut buf = [0u8; 16];
         while let Ok((n, _from)) = sock.try_recv_from(&mut buf) {
             let id = if n >= 2 { ((buf[0] as u64) << 8) | buf[1] as u64 } else { 0 };
-            let at = turmoil::elapsed().as_millis() as u64 - warm;
+            let at = turmoil::elapsed().as_millis() as u64 - shared.borrow().warm;
             rec::emit(json!({"ev":"recv","id":id,"h":h,"at":at}));
         }
         let cmds: Vec<Cmd> = shared.borrow_mut().cmds[h].drain(..).collect();
         let mut cur_off = 0u64;
         for c in cmds {
             match c {
-                Cmd::Send { dst, off, id: _ } => {
+                Cmd::Send { dst, off, id: _, probe } => {
                     if off > cur_off {
                         tokio::time::sleep(Duration::from_millis(off - cur_off)).await;
                         cur_off = off;
                     }
-                    let t = turmoil::elapsed().as_millis() as u64 - warm;
+                    let t = turmoil::elapsed().as_millis() as u64 - shared.borrow().warm;
                     let id = {
                         let mut sh = shared.borrow_mut();
                         sh.next_id += 1;
                         sh.next_id
                     };
-                    rec::emit(json!({"ev":"send_begin","id":id,"src":h,"dst":dst,"t":t,"off":cur_off}));
                     let payload = [(id >> 8) as u8, (id & 0xff) as u8];
-                    let r = sock.send_to(&payload, (hname(dst), PORT)).await;
-                    rec::emit(json!({"ev":"send_end","id":id,"ok":r.is_ok()}));
+                    let stream = if probe { streams.get_mut(&dst).and_then(|q| q.pop_front()) } else { None };
+                    if let Some(st) = stream {
+                        let port = st.local_addr().map(|a| a.port()).unwrap_or(0);
+                        shared.borrow_mut().probes.insert((h, port), id);
+                        rec::emit(json!({"ev":"send_begin","id":id,"src":h,"dst":dst,"t":t,"off":cur_off,"kind":"probe","port":port}));
+                        let r = st.try_write(&payload);
+                        rec::emit(json!({"ev":"send_end","id":id,"ok":r.is_ok()}));
+                        used.push(st);
+                    } else {
+                        rec::emit(json!({"ev":"send_begin","id":id,"src":h,"dst":dst,"t":t,"off":cur_off}));
+                        let r = sock.send_to(&payload, (hname(dst), PORT)).await;
+                        rec::emit(json!({"ev":"send_end","id":id,"ok":r.is_ok()}));
+                    }
                 }
                 Cmd::Ctl { op, a, b } => {
                     apply_ctl_host(&op, a, b);
@@ -174,6 +215,24 @@ struct Cfg {
     ipv6: bool,
     runtime_fail: bool, // the run may call the runtime fail-rate setters
     reg: Vec<usize>,    // registration order (hosts are numbered in address order)
+    tcp_k: usize,       // half-open TCP streams per ordered pair for "probe" sends (0 = UDP only)
+}
+
+/// Name of a `Sim::links` entry: the id carried in the payload (datagrams, TCP data), or for a
+/// payload-less TCP RST the stream it resets (see RST_BASE).
+fn sent_name(sent: &turmoil::SentRef<'_>, ip2h: &BTreeMap<String, usize>) -> u64 {
+    let s = format!("{}", sent.protocol());
+    if s.trim() == "TCP RST" {
+        let (_src, dst) = sent.pair();
+        let h = *ip2h.get(&dst.ip().to_string()).unwrap_or(&0) as u64;
+        return RST_BASE + (h << 16) + dst.port() as u64;
+    }
+    let bytes = util::parse_hex_payload(&s).unwrap_or_default();
+    if bytes.len() >= 2 {
+        ((bytes[0] as u64) << 8) | bytes[1] as u64
+    } else {
+        0
+    }
 }
 
 fn pair(a: usize, b: usize) -> (usize, usize) {
@@ -190,7 +249,9 @@ impl<'a> Run<'a> {
         b.tick_duration(Duration::from_millis(cfg.tick))
             .min_message_latency(Duration::from_millis(cfg.gmin))
             .max_message_latency(Duration::from_millis(cfg.gmax))
-            .fail_rate(cfg.fail)
+            // with TCP probes the streams are prepared over a network that does not fail; the
+            // configured fail rate is switched on when the trace starts
+            .fail_rate(if cfg.tcp_k > 0 { 0.0 } else { cfg.fail })
             .repair_rate(cfg.repair)
             .rng_seed(cfg.seed)
             .simulation_duration(Duration::from_secs(3600));
@@ -209,6 +270,10 @@ impl<'a> Run<'a> {
             warm: cfg.tick,
             next_id: 0,
             ipv6: cfg.ipv6,
+            n: cfg.n,
+            tcp_k: cfg.tcp_k,
+            ready: 0,
+            probes: BTreeMap::new(),
         }));
         let mut notifies = vec![Rc::new(Notify::new())];
         let mut ip2h = BTreeMap::new();
@@ -225,6 +290,32 @@ impl<'a> Run<'a> {
         }
         // warm-up step: every puppet binds its socket and parks on its Notify
         sim.step().expect("warm-up step");
+        if cfg.tcp_k > 0 {
+            // second warm-up phase: the half-open streams are prepared over the healthy network;
+            // the trace starts once every connect has completed and nothing is in flight any more
+            for h in 1..=cfg.n {
+                notifies[h].notify_one();
+            }
+            let mut quiet = 0;
+            let mut steps = 1u64;
+            while quiet < 3 {
+                sim.step().expect("warm-up step");
+                steps += 1;
+                let mut inflight = 0;
+                sim.links(|links| {
+                    for link in links {
+                        inflight += link.count();
+                    }
+                });
+                let ready = shared.borrow().ready == cfg.n;
+                quiet = if ready && inflight == 0 { quiet + 1 } else { 0 };
+                assert!(steps < 20000, "warm-up did not settle");
+            }
+            shared.borrow_mut().warm = steps * cfg.tick;
+            if cfg.fail > 0.0 {
+                sim.set_fail_rate(cfg.fail);
+            }
+        }
         rec::take();
         rec::emit(json!({"ev":"reset","fail":cfg.fail > 0.0 || cfg.runtime_fail}));
         Run {
@@ -330,14 +421,7 @@ impl<'a> Run<'a> {
                 let (a, b) = (ip2h[&a.to_string()], ip2h[&b.to_string()]);
                 let mut ids = Vec::new();
                 for sent in link {
-                    let s = format!("{}", sent.protocol());
-                    let bytes = util::parse_hex_payload(&s).unwrap_or_default();
-                    let id = if bytes.len() >= 2 {
-                        ((bytes[0] as u64) << 8) | bytes[1] as u64
-                    } else {
-                        0
-                    };
-                    ids.push(id);
+                    ids.push(sent_name(&sent, ip2h));
                 }
                 out.push((a, b, ids));
             }
@@ -368,9 +452,7 @@ impl<'a> Run<'a> {
                 }
                 for (i, sent) in link.enumerate() {
                     if i + 1 == k {
-                        let s = format!("{}", sent.protocol());
-                        let bytes = util::parse_hex_payload(&s).unwrap_or_default();
-                        hit = Some(((bytes[0] as u64) << 8) | bytes[1] as u64);
+                        hit = Some(sent_name(&sent, ip2h));
                         sent.deliver();
                     }
                 }
@@ -440,6 +522,23 @@ impl<'a> Run<'a> {
         }
         rec::emit(json!({"ev":"step"}));
         self.sim.step().expect("step");
+        // a probe's stream that left its host's socket table was reset by the answering RST
+        let watched: Vec<(usize, u16)> = self.shared.borrow().probes.keys().copied().collect();
+        if !watched.is_empty() {
+            for h in 1..=self.n {
+                let mine: Vec<u16> = watched.iter().filter(|(x, _)| *x == h).map(|(_, p)| *p).collect();
+                if mine.is_empty() {
+                    continue;
+                }
+                let t = self.sim.verif_host_tables(hname(h));
+                for port in mine {
+                    if !t.tcp_streams.iter().any(|(l, _)| l.port() == port) {
+                        self.shared.borrow_mut().probes.remove(&(h, port));
+                        rec::emit(json!({"ev":"rstseen","h":h,"port":port}));
+                    }
+                }
+            }
+        }
         rec::emit(json!({"ev":"step_end"}));
     }
 }
@@ -458,74 +557,207 @@ fn payload_id(proto: &str) -> Option<u64> {
 /// tracing events between send_begin/send_end are folded into the `send`
 /// record, `Delivered` events are folded into the `turn` record of the host
 /// that is woken next.
+///
+/// Message ids: the specs number messages in send order.  The puppets number their own sends
+/// (the number travels in the payload); the answers a host makes itself (TCP RST for a refused
+/// probe, from inside Link::deliver_messages) are numbered here, at the point of the stream where
+/// the guarded `Enqueue` hook reports them, and every recorded id is renumbered accordingly.
+/// An RST that was never reported by the hook is numbered where the public API first shows it
+/// (in `Sim::links`, or by the reset of the stream) and recorded as a send at that point.
 fn postprocess(raw: Vec<Value>, run: &Run<'_>, cfgs: &mut CfgMirror) -> Vec<Value> {
-    let mut out = Vec::new();
+    let mut out: Vec<Value> = Vec::new();
     let mut got: BTreeMap<usize, Vec<u64>> = BTreeMap::new();
-    let mut cur_send: Option<Value> = None;
+    let mut cur_send: Option<Value> = None; // a puppet's send in progress
+    let mut cur_reply: Option<Value> = None; // a host's own answer in progress
+    let mut pre_turn: BTreeMap<usize, Vec<Value>> = BTreeMap::new(); // events of a turn's delivery phase
+    let mut fin: BTreeMap<u64, u64> = BTreeMap::new(); // puppet number -> id
+    let mut rst: BTreeMap<(usize, u16), u64> = BTreeMap::new(); // stream reset by the RST -> id of the RST
+    let mut probe: BTreeMap<(usize, u16), (u64, usize, bool)> = BTreeMap::new(); // stream -> (probe id, dst, arrival recorded)
+    let mut next = 0u64;
+    let mut steps = 0u64;
+    let tick = run.tick;
     let host_of = |addr: &str| -> usize {
         let ip = addr.rsplit_once(':').map(|x| x.0).unwrap_or(addr);
         let ip = ip.trim_start_matches('[').trim_end_matches(']');
         *run.ip2h.get(ip).unwrap_or(&0)
     };
+    let port_of = |addr: &str| -> u16 { addr.rsplit_once(':').and_then(|x| x.1.parse().ok()).unwrap_or(0) };
+    fn flush_reply(cur_reply: &mut Option<Value>, pre_turn: &mut BTreeMap<usize, Vec<Value>>) {
+        if let Some(r) = cur_reply.take() {
+            let h = r["src"].as_u64().unwrap() as usize;
+            pre_turn.entry(h).or_default().push(r);
+        }
+    }
+    // an RST the hook did not report: number it now, record its send (and the arrival of the probe it answers) here
+    macro_rules! late_rst {
+        ($key:expr) => {{
+            let key: (usize, u16) = $key;
+            if let Some(id) = rst.get(&key) {
+                *id
+            } else {
+                next += 1;
+                let id = next;
+                rst.insert(key, id);
+                let at = steps.saturating_sub(1) * tick;
+                if let Some((pid, pdst, seen)) = probe.get_mut(&key) {
+                    if !*seen {
+                        *seen = true;
+                        out.push(json!({"ev":"recv","id":*pid,"h":*pdst,"at":at}));
+                    }
+                    let (cmin, cmax) = cfgs.eff(*pdst, key.0);
+                    out.push(json!({"ev":"send","id":id,"src":*pdst,"dst":key.0,"t":at,"off":0,"kind":"rst","late":true,
+                        "lat":-1,"cmin":cmin,"cmax":cmax,"outcome":"none","cf":false,"sab":"?","sba":"?"}));
+                }
+                id
+            }
+        }};
+    }
+    macro_rules! name_to_id {
+        ($v:expr) => {{
+            let v: u64 = $v;
+            if v >= RST_BASE {
+                let key = (((v - RST_BASE) >> 16) as usize, ((v - RST_BASE) & 0xffff) as u16);
+                late_rst!(key)
+            } else {
+                *fin.get(&v).unwrap_or(&v)
+            }
+        }};
+    }
     for e in raw {
         let ev = e["ev"].as_str().unwrap_or("");
         match ev {
             "t" => {
                 let msg = e["message"].as_str().unwrap_or("");
+                let target = if cur_send.is_some() { cur_send.as_mut() } else { cur_reply.as_mut() };
                 match msg {
                     "Delivered" => {
-                        let h = host_of(e["dst"].as_str().unwrap_or(""));
-                        if let Some(id) = payload_id(e["protocol"].as_str().unwrap_or("")) {
-                            got.entry(h).or_default().push(id);
+                        let dst = e["dst"].as_str().unwrap_or("");
+                        let h = host_of(dst);
+                        let proto = e["protocol"].as_str().unwrap_or("");
+                        if proto.trim() == "TCP RST" {
+                            if let Some(id) = rst.get(&(h, port_of(dst))) {
+                                got.entry(h).or_default().push(*id);
+                            }
+                        } else if let Some(id) = payload_id(proto) {
+                            got.entry(h).or_default().push(*fin.get(&id).unwrap_or(&id));
+                        }
+                    }
+                    "Enqueue" => {
+                        if cur_send.is_none() && e["protocol"].as_str().unwrap_or("").trim() == "TCP RST" {
+                            // a host answers a refused probe during the delivery phase of its turn
+                            flush_reply(&mut cur_reply, &mut pre_turn);
+                            let (srcs, dsts) = (e["src"].as_str().unwrap_or(""), e["dst"].as_str().unwrap_or(""));
+                            let (src, dst) = (host_of(srcs), host_of(dsts));
+                            let key = (dst, port_of(dsts));
+                            next += 1;
+                            rst.insert(key, next);
+                            let at = steps.saturating_sub(1) * tick;
+                            if let Some((pid, _pdst, seen)) = probe.get_mut(&key) {
+                                if !*seen {
+                                    *seen = true;
+                                    pre_turn.entry(src).or_default().push(json!({"ev":"recv","id":*pid,"h":src,"at":at}));
+                                }
+                            }
+                            let (cmin, cmax) = cfgs.eff(src, dst);
+                            cur_reply = Some(json!({"ev":"send","id":next,"src":src,"dst":dst,"t":at,"off":0,"kind":"rst",
+                                "lat":-1,"cmin":cmin,"cmax":cmax,"outcome":"none","cf":false,"sab":"?","sba":"?"}));
                         }
                     }
                     "Rand" => {
-                        if let Some(s) = cur_send.as_mut() {
+                        if let Some(s) = target {
                             s["cf"] = e["do_rand"].clone();
                             s["sab"] = e["a_b"].clone();
                             s["sba"] = e["b_a"].clone();
                         }
                     }
                     "Delay" => {
-                        if let Some(s) = cur_send.as_mut() {
+                        if let Some(s) = target {
                             s["lat"] = e["delay_ms"].clone();
                             s["outcome"] = json!("queued");
                         }
                     }
                     "Hold" => {
-                        if let Some(s) = cur_send.as_mut() {
+                        if let Some(s) = target {
                             s["outcome"] = json!("held");
                         }
                     }
                     "Drop" => {
-                        if let Some(s) = cur_send.as_mut() {
+                        if let Some(s) = target {
                             s["outcome"] = json!("dropped");
                         }
                     }
                     _ => {}
                 }
             }
+            "step" => {
+                steps += 1;
+                out.push(e);
+            }
             "wake" => {
+                flush_reply(&mut cur_reply, &mut pre_turn);
                 let h = e["h"].as_u64().unwrap() as usize;
                 let g = got.remove(&h).unwrap_or_default();
                 out.push(json!({"ev":"turn","h":h,"got":g}));
+                out.extend(pre_turn.remove(&h).unwrap_or_default());
             }
             "send_begin" => {
+                flush_reply(&mut cur_reply, &mut pre_turn);
                 let (src, dst) = (e["src"].as_u64().unwrap() as usize, e["dst"].as_u64().unwrap() as usize);
                 let (cmin, cmax) = cfgs.eff(src, dst);
-                cur_send = Some(json!({"ev":"send","id":e["id"],"src":src,"dst":dst,"t":e["t"],"off":e["off"],
-                    "lat":-1,"cmin":cmin,"cmax":cmax,"outcome":"none","cf":false,"sab":"?","sba":"?"}));
+                next += 1;
+                fin.insert(e["id"].as_u64().unwrap(), next);
+                let mut s = json!({"ev":"send","id":next,"src":src,"dst":dst,"t":e["t"],"off":e["off"],
+                    "lat":-1,"cmin":cmin,"cmax":cmax,"outcome":"none","cf":false,"sab":"?","sba":"?"});
+                if e["kind"] == "probe" {
+                    s["kind"] = json!("probe");
+                    probe.insert((src, e["port"].as_u64().unwrap_or(0) as u16), (next, dst, false));
+                }
+                cur_send = Some(s);
             }
             "send_end" => {
                 if let Some(s) = cur_send.take() {
                     out.push(s);
                 }
             }
+            "recv" => {
+                let mut e = e;
+                let id = e["id"].as_u64().unwrap_or(0);
+                e["id"] = json!(*fin.get(&id).unwrap_or(&id));
+                out.push(e);
+            }
+            "rstseen" => {
+                flush_reply(&mut cur_reply, &mut pre_turn);
+                let h = e["h"].as_u64().unwrap() as usize;
+                let id = late_rst!((h, e["port"].as_u64().unwrap_or(0) as u16));
+                out.push(json!({"ev":"recv","id":id,"h":h,"at":steps.saturating_sub(1) * tick}));
+            }
+            "links" => {
+                let mut e = e;
+                if let Some(pairs) = e["pairs"].as_array().cloned() {
+                    let mut np = Vec::new();
+                    for p in pairs {
+                        let ids: Vec<u64> = p["ids"].as_array().unwrap().iter().map(|v| name_to_id!(v.as_u64().unwrap())).collect();
+                        np.push(json!({"a":p["a"],"b":p["b"],"ids":ids}));
+                    }
+                    e["pairs"] = json!(np);
+                }
+                out.push(e);
+            }
+            "manual" => {
+                let mut e = e;
+                let id = name_to_id!(e["id"].as_u64().unwrap_or(0));
+                e["id"] = json!(id);
+                out.push(e);
+            }
             "setlat" => {
                 cfgs.apply(&e);
                 out.push(e);
             }
             "step_end" => {
+                flush_reply(&mut cur_reply, &mut pre_turn);
+                for (_h, evs) in std::mem::take(&mut pre_turn) {
+                    out.extend(evs);
+                }
                 for (h, ids) in std::mem::take(&mut got) {
                     out.push(json!({"ev":"stray_delivered","h":h,"ids":ids}));
                 }
@@ -654,6 +886,7 @@ fn replay_one(beh: &[Value], cfg: &Cfg, full: bool) -> ReplayOut {
                                 dst: b["dst"].as_u64().unwrap() as usize,
                                 off: b["off"].as_u64().unwrap(),
                                 id: b["id"].as_u64().unwrap(),
+                                probe: false,
                             });
                             pred_outcomes.push((b["id"].as_u64().unwrap(), b["outcome"].as_str().unwrap().to_string()));
                         }
@@ -754,6 +987,7 @@ fn main_replay(args: &[String]) {
         ipv6: false,
         runtime_fail: false,
         reg: parse_reg(args, util::arg_u64(args, "n", 2) as usize),
+        tcp_k: 0,
     };
     let text = std::fs::read_to_string(&inp).expect("read behaviours");
     let mut total = 0u64;
@@ -820,6 +1054,10 @@ fn main_random(args: &[String]) {
     let gmin = util::arg_u64(args, "gmin", 0);
     let gmax = util::arg_u64(args, "gmax", 5);
     let mode = util::arg(args, "mode").unwrap_or("part".into());
+    // "rstpart" / "rsthold" / "rstlat": the same scenarios with TCP probes (answered by an RST from
+    // inside Link::deliver_messages) mixed into the traffic; control calls from the Sim handle only
+    let tcp = mode.starts_with("rst");
+    let mode = mode.trim_start_matches("rst").to_string();
     let steps = util::arg_u64(args, "steps", 12);
     let out = util::arg(args, "out").expect("out=");
     let mut rng = SmallRng::seed_from_u64(seed ^ 0x746f706c);
@@ -843,6 +1081,7 @@ fn main_random(args: &[String]) {
                 ipv6: rng.random_bool(0.3),
                 runtime_fail: fail_on && rng.random_bool(0.5),
                 reg: parse_reg(args, n),
+                tcp_k: if tcp { (2 * steps as usize).min(16) } else { 0 },
             };
             let runtime_fail = cfg.runtime_fail;
             let mut run = Run::new(&cfg);
@@ -962,11 +1201,11 @@ fn main_random(args: &[String]) {
                         if tick > 1 && rng.random_bool(0.4) {
                             off = rng.random_range(off..tick);
                         }
-                        per_host[h].push(Cmd::Send { dst, off, id: next_id });
+                        per_host[h].push(Cmd::Send { dst, off, id: next_id, probe: tcp && rng.random_bool(0.6) });
                         next_id += 1;
                         nsend += 1;
                     }
-                    if !ops.is_empty() && rng.random_bool(0.1) {
+                    if !tcp && !ops.is_empty() && rng.random_bool(0.1) {
                         let a = rng.random_range(1..=n);
                         let b = a % n + 1;
                         let op = ops[rng.random_range(0..ops.len())];
